@@ -28,7 +28,14 @@ func TestC18(t *testing.T) {
 	rep := vlib.NewReport("C18", "E4:max_blob_size/"+mode)
 	defer rep.Write()
 	limits := []int64{1, 4096, 1 << 20}
-	for _, L := range limits {
+	if vlib.Thorough() {
+		limits = []int64{1, 2, 100, 4095, 4096, 4097, 65536, 1<<20 - 1, 1 << 20, 1<<20 + 1, 2<<20 + 1}
+	}
+	shard, nshards := vlib.Shard()
+	for li, L := range limits {
+		if li%nshards != shard {
+			continue
+		}
 		f := newFx(fxOpts{mode: mode, maxBlob: L, validateAC: true, asset: true})
 		ctx, cancel := ctxT()
 		caps, err := f.caps.GetCapabilities(ctx, &pb.GetCapabilitiesRequest{})
@@ -38,11 +45,19 @@ func TestC18(t *testing.T) {
 			rep.Violate("C18 GetCapabilities does not advertise max_blob_size", fmt.Sprintf("mode=%s limit=%d: advertised %d (err %v)", mode, L, caps.GetCacheCapabilities().GetMaxCasBlobSizeBytes(), err), nil)
 		}
 		sizes := []int64{L - 1, L, L + 1, 4 * L}
+		if vlib.Thorough() {
+			sizes = []int64{1, L / 2, L - 1, L, L + 1, L + 2, 2 * L, 4*L + 1}
+		}
+		seenSize := map[int64]bool{}
 		for _, path := range writePaths {
+			for k := range seenSize {
+				delete(seenSize, k)
+			}
 			for _, n := range sizes {
-				if n <= 0 {
+				if n <= 0 || seenSize[n] {
 					continue
 				}
+				seenSize[n] = true
 				for _, kind := range []string{"random", "zeros"} {
 					if kind == "zeros" && n < 64 {
 						continue
@@ -142,8 +157,26 @@ func TestC18Proxy(t *testing.T) {
 	mode := vlib.Param("MODE", "zstd")
 	rep := vlib.NewReport("C18", "E4:max_proxy_blob_size/"+mode)
 	defer rep.Write()
-	for _, P := range []int64{100, 4096} {
-		for _, n := range []int64{P - 1, P, P + 1} {
+	ps := []int64{100, 4096}
+	ns := func(P int64) []int64 { return []int64{P - 1, P, P + 1} }
+	if vlib.Thorough() {
+		ps = []int64{1, 100, 4095, 4096, 4097, 1 << 20}
+		ns = func(P int64) []int64 {
+			out := []int64{}
+			for _, n := range []int64{1, P / 2, P - 1, P, P + 1, P + 2, 2 * P, 4*P + 1} {
+				dup := n <= 0
+				for _, o := range out {
+					dup = dup || o == n
+				}
+				if !dup {
+					out = append(out, n)
+				}
+			}
+			return out
+		}
+	}
+	for _, P := range ps {
+		for _, n := range ns(P) {
 			for _, op := range []string{"get-known", "get-unknown", "getzstd-known", "contains-known", "contains-unknown", "findmissing", "ac-dependency"} {
 				rep.Eval()
 				px := vlib.NewFakeProxy()
